@@ -16,7 +16,8 @@ RULE = ('Event sequences (<= 45 events) over {datapoint arrives, burst of arriva
         'line client protocols; thorough adds all event sequences of length <= 4 over a 10-symbol alphabet after a fixed '
         'prefix for fixed configurations. Oracle: per destination the written datapoints are an order-preserving '
         'subsequence of the arrivals at its queue, no id written twice anywhere; a drop happens only at the hard limit and '
-        'fullQueueDrops equals the observed drops; non-priority queue length <= ceil(hard limit) after every step; at '
+        'fullQueueDrops equals the observed drops; non-priority queue length <= ceil(hard limit) after every step, and a '
+        'destination that is out of the dynamic router holds no queued datapoints after any step; at '
         'quiescence (all destinations reachable, transports resumed, timers fired) every id is written exactly once or '
         'counted as dropped (or buffered when no destination is configured); a stop closes a connection only after the '
         'datapoints queued at stop time were written. Non-trivial = a disconnect with a non-empty queue followed by a '
@@ -262,14 +263,30 @@ def step_bound(ctx, case):
       if nonprio > cap:
         bad.append('after step %d %r destination %r holds %d non-priority datapoints, hard limit %s' % (
           step, op, d, nonprio, float(hard_limit(case))))
-  return hook, bad
+  # a destination the dynamic router has declared down keeps nothing: what it had queued was handed back to the
+  # pipeline (to the remaining destinations, or to the no-destination buffer), and nothing is routed to it until it is
+  # up again - so while it is out of the router its queue is empty, whichever destination returns first
+  stuck = []
+
+  def hook2(t, step, op):
+    hook(t, step, op)
+    if stuck or not case.get('dynamic') or t.stop_snapshot is not None:
+      return
+    for d, f in t.factories.items():
+      if not t.mgr.router.hasDestination(d) and len(f.queue):
+        stuck.append('after step %d %r destination %r is out of the dynamic router with %d datapoints still in its queue' % (
+          step, op, d, len(f.queue)))
+  return hook2, bad, stuck
 
 
 def execute(ctx, case):
-  hook, bad = step_bound(ctx, case)
+  hook, bad, stuck = step_bound(ctx, case)
   t = relaysim.run_case(case, step_hook=hook)
   if bad:
     ctx.fail('C07:queue-over-limit', bad[0], case, 'bound')
+    return
+  if stuck:
+    ctx.fail('C07:queued-at-removed-destination', stuck[0], case, 'rerouted-not-lost')
     return
   if not judge(ctx, case, t):
     return
